@@ -165,6 +165,18 @@ fn f62_read_from_contract() {
     }
 }
 
+/// inv maps both representatives of zero (raw words 0 and M) to zero, and terminates on them
+#[kani::proof]
+#[kani::unwind(2)]
+fn f62_inv_zero_contract() {
+    let x: u64 = kani::any();
+    kani::assume(x == 0 || x == M);
+    kani::cover!(x == M);
+    let r = inv(x);
+    assert!(normalize(r) == 0);
+    assert!(BaseElement(x).inv() == BaseElement::ZERO);
+}
+
 #[kani::proof]
 fn f62_canary_must_fail() {
     let (a, b) = (any_rep(), any_rep());
